@@ -1,5 +1,4 @@
 import ast
-from keyword import iskeyword
 from typing import Dict, List, Optional, Tuple, cast
 
 from graphql import (
@@ -40,6 +39,7 @@ from ..codegen import (
     generate_subscript,
 )
 from ..exceptions import ParsingError
+from ..utils import enum_member_name
 from .constants import (
     ANY,
     FIELD_CLASS,
@@ -165,8 +165,7 @@ def parse_input_const_value_node(
             # field_type is the type of the enclosing input object here, not the enum:
             # model_validate turns the value into the member of the right enum
             return generate_constant(node.value)
-        member = node.value + "_" if iskeyword(node.value) else node.value
-        return generate_name(f"{field_type}.{member}")
+        return generate_name(f"{field_type}.{enum_member_name(node.value)}")
 
     if isinstance(node, ListValueNode):
         list_ = generate_list(
